@@ -126,6 +126,7 @@ def uninstall():
         m.threading = _th
     nfc.llcp.llc.time = _time
     nfc.dep.Initiator, nfc.dep.Target = _ORIG_DEP
+    nfc.llcp.sec.cipher_suite = _ORIG_CIPHER
 
 
 def name_conditions(sock, label=""):
@@ -327,13 +328,18 @@ GB = b"Ffm" + bytes.fromhex("010111" "02020078" "040132")     # version 1.1, MIU
 CAUSES = ("remote-disc", "timeout", "broken-link", "none", "malformed", "local-terminate",
           "ioerror", "ioerror-persistent", "keyboard-interrupt", "key-agreement", "decryption", "encryption")
 UNCAUGHT = ("runtime-error",)
+EXCEPTION_CAUSES = ("ioerror", "ioerror-persistent", "keyboard-interrupt", "key-agreement", "decryption", "encryption",
+                    "runtime-error")
 
 
 class MacScript:
     """what the peer does; shared between the fake MAC object and the harness"""
 
-    def __init__(self, cause, at, replies=()):
-        self.cause, self.at = cause, at
+    def __init__(self, cause, at, replies=(), point="established", role="initiator"):
+        """point: where the cause strikes - 'established' (exchange number `at` of the loop), 'first' (the
+        initiator's first collect() resp. the target's first exchange, before link.ESTABLISHED) or 'dps'
+        (the first exchange of the DPS key agreement; needs install_dps())"""
+        self.cause, self.at, self.point, self.role = cause, at, point, role
         self.replies = collections.deque(replies)     # frames delivered before SYMM
         self.sent = []                                # names of the PDUs sent by the local llc
         self.n = 0
@@ -360,35 +366,46 @@ class MacScript:
         if hook:
             hook()
         _time.sleep(0.0003)
-        if self.armed and not self.fired and n >= self.at and self.cause != "local-terminate":
-            self.fired = True
-            c = self.cause
-            if c == "remote-disc":
-                return bytearray.fromhex("0140")
-            if c == "timeout":
-                raise nfc.clf.TimeoutError("scripted")
-            if c == "broken-link":
-                raise nfc.clf.BrokenLinkError("scripted")
-            if c == "none":
-                return None
-            if c == "malformed":
-                return bytearray(b"\x00")
-            if c in ("ioerror", "ioerror-persistent"):
-                raise IOError(errno.ENODEV, "scripted: device gone")
-            if c == "keyboard-interrupt":
-                raise KeyboardInterrupt
-            if c == "key-agreement":
-                raise nfc.llcp.sec.KeyAgreementError("scripted")
-            if c == "decryption":
-                raise nfc.llcp.sec.DecryptionError("scripted")
-            if c == "encryption":
-                raise nfc.llcp.sec.EncryptionError("scripted")
-            if c == "runtime-error":
-                raise RuntimeError("scripted")
-            raise AssertionError("unknown cause " + c)
+        if self.armed and not self.fired and n >= self.at and self.cause != "local-terminate" \
+                and not (self.point == "first" and self.role == "initiator"):
+            return self.fire()
         if self.replies:
             return bytearray(self.replies.popleft())
         return bytearray.fromhex("0000")
+
+    def fire(self):
+        self.fired = True
+        c = self.cause
+        if c == "remote-disc":
+            return bytearray.fromhex("0140")
+        if c == "timeout":
+            raise nfc.clf.TimeoutError("scripted")
+        if c == "broken-link":
+            raise nfc.clf.BrokenLinkError("scripted")
+        if c == "none":
+            return None
+        if c == "malformed":
+            return bytearray(b"\x00")
+        if c in ("ioerror", "ioerror-persistent"):
+            raise IOError(errno.ENODEV, "scripted: device gone")
+        if c == "keyboard-interrupt":
+            raise KeyboardInterrupt
+        if c == "key-agreement":
+            raise nfc.llcp.sec.KeyAgreementError("scripted")
+        if c == "decryption":
+            raise nfc.llcp.sec.DecryptionError("scripted")
+        if c == "encryption":
+            raise nfc.llcp.sec.EncryptionError("scripted")
+        if c == "runtime-error":
+            raise RuntimeError("scripted")
+        raise AssertionError("unknown cause " + c)
+
+    def sleep(self, d):
+        """time.sleep as seen from llc.collect(): the initiator's first collect() is where point 'first' strikes"""
+        if self.point == "first" and self.role == "initiator" and self.armed and not self.fired \
+                and self.cause in EXCEPTION_CAUSES:
+            self.fire()
+        _time.sleep(min(d, 0.0005))
 
     def deactivate(self):
         self.deactivated += 1
@@ -436,9 +453,82 @@ class FakeTarget(_ORIG_DEP[1]):
         self.s.deactivate()
 
 
+class _ScriptTime:
+    time = staticmethod(_time.time)
+
+    @staticmethod
+    def sleep(d):
+        SCRIPT[0].sleep(d)
+
+
 def install_mac(script):
     SCRIPT[0] = script
     nfc.dep.Initiator, nfc.dep.Target = FakeInitiator, FakeTarget
+    nfc.llcp.llc.time = _ScriptTime
+
+
+class FakeCipher:
+    """stands in for nfc.llcp.sec.CipherSuite1 (no OpenSSL here): enough for the DPS exchange of the run loops"""
+    public_key_x, public_key_y, random_nonce, icv_size = b"x" * 32, b"y" * 32, b"r" * 8, 0
+
+    def calculate_session_key(self, *a, **k):
+        pass
+
+    def encrypt(self, a, p):
+        return p
+
+    def decrypt(self, a, c):
+        return c
+
+
+_ORIG_CIPHER = nfc.llcp.sec.cipher_suite
+
+
+def install_dps():
+    nfc.llcp.sec.cipher_suite = lambda name: FakeCipher()
+
+
+# --------------------------------------------------------------------------- terminate() as an actor
+class SapList(list):
+    """llc.sap with a scheduling point at every first read of an index (terminate() walks 63..0)"""
+    world = None
+
+    def __getitem__(self, i):
+        if isinstance(i, int) and self.world is not None:
+            self.world.on_sap(i)
+        return list.__getitem__(self, i)
+
+
+class TermWorld(World):
+    """single thread: the link thread runs terminate(); at ONE of its scheduling points (outermost lock
+    acquisitions and the step from one service access point to the next) an application thread acts"""
+
+    def begin_term(self, target, action):
+        self.points, self.target, self.action = [], target, action
+        self.events, self.held, self.active, self.in_action, self.last_i = [], 0, True, False, None
+        self.flag_at_target = None
+
+    def _point(self, name):
+        name = "%s#%d" % (name, sum(1 for p in self.points if p.split("#")[0] == name))
+        self.points.append(name)
+        if name == self.target:
+            self.in_action = True
+            try:
+                self.action()
+            finally:
+                self.in_action = False
+
+    def on_acquire(self, lock):
+        if self.active and not self.in_action and not self.held:
+            self._point("L" + lock.name[0])
+
+    def on_sap(self, i):
+        if self.active and not self.in_action and i != self.last_i:
+            self.last_i = i
+            self._point("i%d" % i)
+
+    def on_wait(self, cv, timeout):
+        raise Hang(("in-action:" if self.in_action else "terminate:") + cv.name)
 
 
 def make_llc(role="initiator"):
